@@ -148,4 +148,545 @@ theorem exchangeBatch_spec (w : World) (hK : KInv w) (hS : SInv w) (f : Filter) 
   · have : bs.toList = news := by rw [hbs]; simp
     rw [this]; exact hP
 
+
+/-! ## what the world reports about an entity -/
+
+/-- the observable state of one entity: its handle, component set, component values (`none` =
+    `Get` returns nil) and relation target -/
+structure EView where
+  ent : Entity
+  mask : Mask
+  comps : CompId → Option Val
+  target : Entity
+
+theorem EView.ext' (a b : EView) (h1 : a.ent = b.ent) (h2 : a.mask = b.mask) (h3 : ∀ c, a.comps c = b.comps c) (h4 : a.target = b.target) : a = b := by
+  cases a; cases b
+  simp only at h1 h2 h3 h4
+  subst h1; subst h2; subst h4
+  have hf := funext h3
+  subst hf
+  rfl
+
+/-- the view of an entity stored in table `t` with row content `row` -/
+def mkView (w : World) (t : Nat) (row : Row) : EView :=
+  { ent := row.ent, mask := w.tableMask t,
+    comps := fun c => (colOf (w.tableIds t) c).map (fun k => row.vals.getD k 0),
+    target := (w.tableOf t).target }
+
+/-- what the world reports about entity id `id` (`none`: not stored) -/
+def view (w : World) (id : Nat) : Option EView :=
+  (loc w id).map (fun l => mkView w l.tbl (rowAt w l.tbl l.row))
+
+theorem view_of_at (w : World) (id t : Nat) (row : Row) (h : At w id t row) : view w id = some (mkView w t row) := by
+  obtain ⟨l, h1, h2, h3⟩ := h
+  unfold view; rw [h1]; simp only [Option.map_some]; rw [h3, h2]
+
+theorem at_of_view (w : World) (id : Nat) (v : EView) (h : view w id = some v) : ∃ t row, At w id t row ∧ v = mkView w t row := by
+  unfold view at h
+  cases hl : loc w id with
+  | none => rw [hl] at h; cases h
+  | some l =>
+    rw [hl] at h; simp only [Option.map_some, Option.some.injEq] at h
+    exact ⟨l.tbl, rowAt w l.tbl l.row, ⟨l, hl, rfl, rfl⟩, h.symm⟩
+
+theorem view_none (w : World) (id : Nat) (h : loc w id = none) : view w id = none := by unfold view; rw [h]; rfl
+
+/-- the relation target rule of the exchange paths, on views (`archTarget` / `exchangeTarget`) -/
+def viewTarget (reg : Registry) (v : EView) (mask : Mask) (rel : Option CompId) (target : Entity) (rem : List CompId) : Except Panic Entity :=
+  match rel with
+  | some r =>
+    if !Mask.get mask r then .error .relMissing
+    else if !Mask.get reg.isRel r then .error .notRel
+    else .ok target
+  | none => .ok (if !v.target.isZero && Mask.containsAny v.mask reg.isRel && rem.any (fun id => Mask.get reg.isRel id)
+      then Entity.zero else v.target)
+
+theorem archTarget_view (w : World) (mask : Mask) (rel : Option CompId) (target : Entity) (t : Nat) (rem : List CompId) (row : Row) :
+    w.archTarget mask rel target t rem = viewTarget w.reg (mkView w t row) mask rel target rem := by
+  unfold archTarget viewTarget keptTarget mkView; rfl
+
+/-- **what an exchange does to one entity**, as a relation between its view before and after:
+    same handle; component set `old − rem + add`; every component of the new set holds its old
+    value, or zero if it is new; the relation target is the one the rule computes (zero if the
+    new component set has no relation) -/
+def Xf (bits : Nat) (reg : Registry) (add rem : List CompId) (rel : Option CompId) (target : Entity) (v v' : EView) : Prop :=
+  v'.ent = v.ent ∧ v'.mask = newMask v.mask add rem ∧
+  (∀ c, v'.comps c = if c ∈ Mask.toList v'.mask bits then some ((v.comps c).getD 0) else none) ∧
+  ∃ mask tgt, exchangeMask v.mask add rem = .ok mask ∧ viewTarget reg v mask rel target rem = .ok tgt ∧
+    ((∃ c, Mask.get v'.mask c = true ∧ Mask.get reg.isRel c = true) → v'.target = tgt) ∧
+    ((¬ ∃ c, Mask.get v'.mask c = true ∧ Mask.get reg.isRel c = true) → v'.target = Entity.zero)
+
+/-- the relation is functional: the view after is determined by the view before -/
+theorem Xf_functional (bits : Nat) (reg : Registry) (add rem : List CompId) (rel : Option CompId) (target : Entity) (v v1 v2 : EView)
+    (h1 : Xf bits reg add rem rel target v v1) (h2 : Xf bits reg add rem rel target v v2) : v1 = v2 := by
+  obtain ⟨a1, a2, a3, m1, t1, a4, a5, a6, a7⟩ := h1
+  obtain ⟨b1, b2, b3, m2, t2, b4, b5, b6, b7⟩ := h2
+  have hm : v1.mask = v2.mask := by rw [a2, b2]
+  apply EView.ext' _ _ (by rw [a1, b1]) hm
+  · intro c; rw [a3, b3, hm]
+  · rw [a4] at b4; simp only [Except.ok.injEq] at b4; subst b4
+    rw [a5] at b5; simp only [Except.ok.injEq] at b5; subst b5
+    by_cases hr : ∃ c, Mask.get v1.mask c = true ∧ Mask.get reg.isRel c = true
+    · rw [a6 hr, b6 (by rw [← hm]; exact hr)]
+    · rw [a7 hr, b7 (by rw [← hm]; exact hr)]
+
+/-- under `DInv`, a row that holds `movedVals` of an old row in a table with the exchanged mask
+    and the computed target is an `Xf`-image of the old view -/
+theorem xf_of_moved (w w' : World) (hD' : DInv.DInv w') (hcfg : w'.cfg = w.cfg) (hreg : w'.reg = w.reg)
+    (add rem : List CompId) (rel : Option CompId) (target : Entity) (t t' : Nat) (ht' : t' < w'.tables.size) (hn' : TNodeOK w')
+    (row : Row) (mask : Mask) (tgt : Entity)
+    (hmask : w'.tableMask t' = newMask (w.tableMask t) add rem)
+    (hm : exchangeMask (w.tableMask t) add rem = .ok mask)
+    (htg : viewTarget w.reg (mkView w t row) mask rel target rem = .ok tgt)
+    (htarget : (w'.tableOf t').target = (if (w'.tableRel t').isSome then tgt else Entity.zero)) :
+    Xf w.cfg.maskBits w.reg add rem rel target (mkView w t row)
+      (mkView w' t' ⟨row.ent, movedVals (w.tableIds t) (w'.tableIds t') row.vals⟩) := by
+  have hnode : (w'.tableOf t').node < w'.nodes.size := hn' t' ht'
+  have hids : w'.tableIds t' = Mask.toList (w'.tableMask t') w.cfg.maskBits := by
+    rw [← hcfg]; exact hD'.ids _ hnode
+  have hrel := hD'.rel _ hnode
+  refine ⟨rfl, hmask, ?_, mask, tgt, hm, htg, ?_, ?_⟩
+  · intro c
+    show (colOf (w'.tableIds t') c).map _ = _
+    show _ = if c ∈ Mask.toList (w'.tableMask t') w.cfg.maskBits then _ else _
+    rw [← hids]
+    cases hc : colOf (w'.tableIds t') c with
+    | none =>
+      have : ¬ c ∈ w'.tableIds t' := by
+        intro hmem; have := (colOf_isSome_iff _ _).2 hmem; rw [hc] at this; cases this
+      rw [if_neg this]; rfl
+    | some k =>
+      have : c ∈ w'.tableIds t' := (colOf_isSome_iff _ _).1 (by rw [hc]; rfl)
+      rw [if_pos this]
+      simp only [Option.map_some, Option.some.injEq]
+      rw [movedVals_get _ _ _ c k hc]
+      show _ = (((colOf (w.tableIds t) c).map (fun k => row.vals.getD k 0))).getD 0
+      cases colOf (w.tableIds t) c <;> rfl
+  · rintro ⟨c, hc1, hc2⟩
+    show (w'.tableOf t').target = tgt
+    have : w'.tableRel t' = some c := (hrel c).2 ⟨hc1, by rw [hreg]; exact hc2⟩
+    rw [htarget, this]; rfl
+  · intro hno
+    show (w'.tableOf t').target = Entity.zero
+    cases hr : w'.tableRel t' with
+    | none => rw [htarget, hr]; rfl
+    | some c =>
+      exfalso; apply hno
+      obtain ⟨a, b⟩ := (hrel c).1 hr
+      exact ⟨c, a, by rw [← hreg]; exact b⟩
+
+
+/-! ## the batch, on views -/
+
+/-- after the loop: every selected entity's view is an `Xf`-image of its view when the call was
+    made; every other id reports exactly what it reported before -/
+theorem loop_views (w w' : World) (add rem : List CompId) (rel : Option CompId) (target : Entity)
+    (lens : List (Nat × Nat)) (news : List BatchEntry)
+    (hK : KInv w) (hD : DInv.DInv w) (hL : LensOK w add rem lens) (hP : LoopPost w w' add rem rel target lens news) :
+    (∀ id, BatchLoop.Sel w lens id → ∃ v v', view w id = some v ∧ view w' id = some v' ∧ Xf w.cfg.maskBits w.reg add rem rel target v v') ∧
+    (∀ id, ¬ BatchLoop.Sel w lens id → view w' id = view w id) := by
+  obtain ⟨hD', hcfg⟩ := hP.dinv hD
+  refine ⟨?_, ?_⟩
+  · rintro id ⟨p, hp, hnz, i, hi, hid⟩
+    obtain ⟨hplt, hplen, _⟩ := hL.ok p hp hnz
+    have hloc : loc w id = some ⟨p.1, i⟩ := by rw [← hid]; exact hK.idx.bwd p.1 i ⟨hplt, by rw [← hplen]; exact hi⟩
+    obtain ⟨b, _, _, hblt, m3, m4, m5, mask, tgt, m6, m7, m8⟩ := hP.moved p hp hnz i hi
+    rw [hid] at m3
+    refine ⟨mkView w p.1 (rowAt w p.1 i), _, view_of_at w id p.1 _ ⟨⟨p.1, i⟩, hloc, rfl, rfl⟩,
+      view_of_at w' id b.tbl _ ⟨⟨b.tbl, b.start + i⟩, m3, rfl, m4⟩, ?_⟩
+    exact xf_of_moved w w' hD' hcfg hP.reg add rem rel target p.1 b.tbl hblt hP.kinv.node.tnode (rowAt w p.1 i) mask tgt m5 m6
+      (by rw [← archTarget_view]; exact m7) m8
+  · intro id hns
+    cases hl : loc w id with
+    | none => rw [view_none w id hl, view_none w' id (by rw [hP.locs id hns]; exact hl)]
+    | some l =>
+      obtain ⟨a, b, c⟩ := hP.others id l hns hl
+      have hv := (hK.idx.fwd id l hl).1
+      obtain ⟨q1, q2, _⟩ := hP.old l.tbl hv.1
+      rw [view_of_at w id l.tbl (rowAt w l.tbl l.row) ⟨l, hl, rfl, rfl⟩,
+        view_of_at w' id l.tbl (rowAt w l.tbl l.row) ⟨l, a, rfl, b⟩]
+      unfold mkView
+      rw [q1, q2, c]
+
+/-! ## the single-entity exchange, on views -/
+
+/-- an id that is not stored before a single-entity exchange is not stored after it -/
+theorem exchange_loc_none (w : World) (e : Entity) (add rem : List CompId) (rel : Option CompId) (target : Entity) (x : Exchanged)
+    (hI : WInv w) (hl : loc w e.id = some (w.locOf e))
+    (he : (rowAt w (w.locOf e).tbl (w.locOf e).row).ent = e)
+    (hok : (w.exchangeNoNotify e add rem rel target).out = .ok (some x)) (id : Nat) (hid : id ≠ e.id) (hnone : loc w id = none) :
+    loc (w.exchangeNoNotify e add rem rel target).w id = none := by
+  obtain ⟨tgt, mask, hmask, _, hne, hf, hw⟩ := C01.exchange_world w e add rem rel target x hok
+  rw [hw]
+  generalize hsrc : w.locOf e = l at *
+  have hv : validRow w l.tbl l.row := (hI.idx.fwd _ _ hl).1
+  obtain ⟨hremok, _⟩ := C01.remOK_of_exchangeMask _ _ _ _ hmask
+  obtain ⟨s1, n1, g1, hspec⟩ := findOrCreateTable_spec w hI.node hI.graph l.tbl hv.1 add rem tgt hremok
+  obtain ⟨htlt, htmask⟩ := hspec x.tbl hf
+  generalize hw1 : (w.findOrCreateTable l.tbl add rem tgt).1 = w1 at *
+  have i1 : IdxInv w1 := SameRows.idxInv s1 hI.node.tnode hI.idx
+  have hv1 : validRow w1 l.tbl l.row := (i1.fwd _ _ (by rw [SameRows.loc_eq s1]; exact hl)).1
+  have he1 : (rowAt w1 l.tbl l.row).ent = e := by rw [SameRows.rowAt_eq s1 _ _ hv.1]; exact he
+  have hadds := findOrCreateTable_ok_adds w l.tbl add rem tgt x.tbl (by rw [← hf])
+  have hmne := C01.newMask_ne _ _ _ hremok hadds hne
+  have hsrcmask : w1.tableMask l.tbl = w.tableMask l.tbl := SameRows.tableMask_eq s1 hI.node.tnode _ hv.1
+  have htne : x.tbl ≠ l.tbl := by
+    intro heq; apply hmne; rw [← htmask, heq, ← hsrcmask]; rfl
+  rw [moveEntity_eq w1 e l x.tbl htlt hv1 htne he1]
+  have hsz2 : (dropRow w1 l.tbl l.row).tables.size = w1.tables.size := tables_size_dropRow _ _ _ hv1.1 hv1.2
+  have s4 := of_markTarget (pushRow (dropRow w1 l.tbl l.row) x.tbl (movedRow w1 e l x.tbl)
+      ((w1.tableOf x.tbl).extend (w1.nodeOf (w1.tableOf x.tbl).node).capInc 1).cap) tgt
+  have hsz4 : ((pushRow (dropRow w1 l.tbl l.row) x.tbl (movedRow w1 e l x.tbl)
+      ((w1.tableOf x.tbl).extend (w1.nodeOf (w1.tableOf x.tbl).node).capInc 1).cap).markTarget tgt).tables.size = w1.tables.size := by
+    unfold markTarget setFlag; split
+    · rw [tables_size_pushRow, hsz2]
+    · show (pushRow _ _ _ _).tables.size = _; rw [tables_size_pushRow, hsz2]
+  have s5 := of_cleanupTable ((pushRow (dropRow w1 l.tbl l.row) x.tbl (movedRow w1 e l x.tbl)
+      ((w1.tableOf x.tbl).extend (w1.nodeOf (w1.tableOf x.tbl).node).capInc 1).cap).markTarget tgt) l.tbl (by rw [hsz4]; exact hv1.1)
+  rw [SameRows.loc_eq s5, SameRows.loc_eq s4]
+  unfold pushRow
+  simp only []
+  rw [loc_setIndex, if_neg (fun h => hid h.1.symm)]
+  show loc (dropRow w1 l.tbl l.row) id = none
+  rw [loc_dropRow w1 i1 _ _ hv1]
+  have h1none : loc w1 id = none := by rw [SameRows.loc_eq s1]; exact hnone
+  split
+  · rfl
+  · split
+    · rename_i hc
+      exfalso
+      have hlastv : validRow w1 l.tbl ((w1.tableOf l.tbl).rows.size - 1) := ⟨hv1.1, by have := hv1.2; omega⟩
+      have := i1.bwd _ _ hlastv
+      rw [← hc.2, h1none] at this; cases this
+    · exact h1none
+
+
+/-- one single-entity exchange: all invariants kept; the entity's view becomes an `Xf`-image of
+    its old view; every other id reports exactly what it reported before -/
+theorem single_views (w : World) (hK : KInv w) (hS : SInv w) (hD : DInv.DInv w) (e : Entity) (add rem : List CompId) (rel : Option CompId) (target : Entity)
+    (x : Exchanged) (v : EView) (hv : view w e.id = some v) (hent : v.ent = e)
+    (hok : (w.exchangeNoNotify e add rem rel target).out = .ok (some x)) :
+    KInv (w.exchangeNoNotify e add rem rel target).w ∧ SInv (w.exchangeNoNotify e add rem rel target).w ∧
+    DInv.DInv (w.exchangeNoNotify e add rem rel target).w ∧
+    (w.exchangeNoNotify e add rem rel target).w.cfg = w.cfg ∧ (w.exchangeNoNotify e add rem rel target).w.reg = w.reg ∧
+    (w.exchangeNoNotify e add rem rel target).w.pool = w.pool ∧
+    (∃ v', view (w.exchangeNoNotify e add rem rel target).w e.id = some v' ∧ Xf w.cfg.maskBits w.reg add rem rel target v v') ∧
+    (∀ id, id ≠ e.id → view (w.exchangeNoNotify e add rem rel target).w id = view w id) := by
+  obtain ⟨t0, row0, ⟨l0, hl0, hlt0, hrow0⟩, hv0⟩ := at_of_view w e.id v hv
+  have hlocOf : w.locOf e = l0 := by
+    unfold locOf; unfold loc at hl0; rw [hl0]; rfl
+  have hl : loc w e.id = some (w.locOf e) := by rw [hlocOf]; exact hl0
+  have he : (rowAt w (w.locOf e).tbl (w.locOf e).row).ent = e := by
+    rw [hlocOf, hrow0, ← hent, hv0]; rfl
+  obtain ⟨i5, hmask', hat', hothers, hold⟩ := C01.exchange_spec w e add rem rel target x (C05.KInv.winv hK) hl he hok
+  obtain ⟨k5, ⟨tgt, mask, hm, htg, htarget⟩, hframe⟩ := C05.exchange_kinv w e add rem rel target x hK hl he hok
+  have s5 := C07.exchange_sinv w e add rem rel target x hK hS hl he hok
+  obtain ⟨d5, c5⟩ := DInv.dinv_exchange w hD hK e add rem rel target x hl hok
+  obtain ⟨_, _, _, _, _, _, hw⟩ := C01.exchange_world w e add rem rel target x hok
+  have hreg : (w.exchangeNoNotify e add rem rel target).w.reg = w.reg ∧ (w.exchangeNoNotify e add rem rel target).w.pool = w.pool := by
+    obtain ⟨tgt', mask', hm', _, _, _, hw'⟩ := C01.exchange_world w e add rem rel target x hok
+    have hvr : validRow w (w.locOf e).tbl (w.locOf e).row := (hK.idx.fwd _ _ hl).1
+    obtain ⟨hremok, _⟩ := C01.remOK_of_exchangeMask _ _ _ _ hm'
+    obtain ⟨s1, _⟩ := findOrCreateTable_spec w hK.node hK.graph (w.locOf e).tbl hvr.1 add rem tgt' hremok
+    rw [hw']
+    generalize (w.findOrCreateTable (w.locOf e).tbl add rem tgt').1 = w1 at s1
+    have hme : (w1.moveEntity e (w.locOf e) x.tbl).reg = w1.reg ∧ (w1.moveEntity e (w.locOf e) x.tbl).pool = w1.pool := by
+      unfold moveEntity tableAlloc removeRowFix tableRemove
+      simp only []
+      split <;> exact ⟨rfl, rfl⟩
+    generalize w1.moveEntity e (w.locOf e) x.tbl = w2 at hme
+    have hmt : (w2.markTarget tgt').reg = w2.reg ∧ (w2.markTarget tgt').pool = w2.pool := by
+      unfold markTarget; split <;> exact ⟨rfl, rfl⟩
+    generalize w2.markTarget tgt' = w3 at hmt
+    have hsz : w3.tables.size = w3.tables.size := rfl
+    have hct : (w3.cleanupTable (w.locOf e).tbl).reg = w3.reg ∧ (w3.cleanupTable (w.locOf e).tbl).pool = w3.pool := by
+      unfold cleanupTable removeTable; simp only []
+      split
+      · exact ⟨rfl, rfl⟩
+      · split <;> exact ⟨rfl, rfl⟩
+    exact ⟨by rw [hct.1, hmt.1, hme.1, s1.reg], by rw [hct.2, hmt.2, hme.2, s1.pool]⟩
+  generalize hw5 : (w.exchangeNoNotify e add rem rel target).w = w5 at *
+  have hvr : validRow w (w.locOf e).tbl (w.locOf e).row := (hK.idx.fwd _ _ hl).1
+  have hxlt : x.tbl < w5.tables.size := by
+    obtain ⟨l', h1, h2, _⟩ := hat'
+    have := (i5.fwd _ _ h1).1.1
+    rw [h2] at this; exact this
+  refine ⟨k5, s5, d5, c5, hreg.1, hreg.2, ?_, ?_⟩
+  · refine ⟨_, view_of_at w5 e.id x.tbl _ hat', ?_⟩
+    have hvv : v = mkView w (w.locOf e).tbl (rowAt w (w.locOf e).tbl (w.locOf e).row) := by
+      rw [hv0, hlocOf, hrow0, hlt0]
+    rw [hvv]
+    have he' : e = (rowAt w (w.locOf e).tbl (w.locOf e).row).ent := he.symm
+    have := xf_of_moved w w5 d5 c5 hreg.1 add rem rel target (w.locOf e).tbl x.tbl hxlt k5.node.tnode
+      (rowAt w (w.locOf e).tbl (w.locOf e).row) mask tgt hmask' hm
+      (by
+        rw [← archTarget_view]
+        cases hrel : rel with
+        | none => rw [hrel] at htg; exact htg
+        | some r =>
+          rw [hrel] at htg
+          rw [archTarget_eq_exchangeTarget]; exact htg
+          intro _
+          unfold exchangeTarget at htg
+          simp only [] at htg
+          split at htg; · cases htg
+          split at htg; · cases htg
+          split at htg
+          · cases htg
+          · rename_i hc; exact hc)
+      htarget
+    rw [← he'] at this
+    exact this
+  · intro id hid
+    cases hlid : loc w id with
+    | none =>
+      rw [view_none w id hlid]
+      cases hl5 : loc w5 id with
+      | none => exact view_none w5 id hl5
+      | some l5 =>
+        exfalso
+        have := exchange_loc_none w e add rem rel target x (C05.KInv.winv hK) hl he hok id hid hlid
+        rw [hw5, hl5] at this; cases this
+    | some l =>
+      have ha : At w id l.tbl (rowAt w l.tbl l.row) := ⟨l, hlid, rfl, rfl⟩
+      obtain ⟨a, b⟩ := C05.exchange_others w e add rem rel target x hK hl he hok id l.tbl _ hid ha
+      rw [hw5] at a b
+      have hvl := (hK.idx.fwd id l hlid).1
+      obtain ⟨q1, q2⟩ := hold l.tbl hvl.1
+      rw [view_of_at w id _ _ ha, view_of_at w5 id _ _ a]
+      unfold mkView
+      rw [q1, q2, b]
+
+
+/-! ## the fold of single-entity exchanges -/
+
+/-- the single-entity exchange (`World.Add` / `Remove` / `Exchange` / `Relations.Exchange`) applied
+    to the entities of a list, one after the other; `none` if one of the calls panics -/
+def singles (add rem : List CompId) (rel : Option CompId) (target : Entity) : List Entity → World → Option World
+  | [], w => some w
+  | e :: es, w =>
+    match (w.exchangeNoNotify e add rem rel target).out with
+    | .ok (some _) => singles add rem rel target es (w.exchangeNoNotify e add rem rel target).w
+    | _ => none
+
+theorem singles_views (add rem : List CompId) (rel : Option CompId) (target : Entity) :
+    ∀ (es : List Entity) (w ws : World), KInv w → SInv w → DInv.DInv w → (es.map (·.id)).Nodup →
+      (∀ e ∈ es, ∃ v, view w e.id = some v ∧ v.ent = e) →
+      singles add rem rel target es w = some ws →
+      KInv ws ∧ SInv ws ∧ DInv.DInv ws ∧ ws.cfg = w.cfg ∧ ws.reg = w.reg ∧ ws.pool = w.pool ∧
+      (∀ e ∈ es, ∃ v v', view w e.id = some v ∧ view ws e.id = some v' ∧ Xf w.cfg.maskBits w.reg add rem rel target v v') ∧
+      (∀ id, (∀ e ∈ es, e.id ≠ id) → view ws id = view w id) := by
+  intro es
+  induction es with
+  | nil =>
+    intro w ws hK hS hD _ _ h
+    simp only [singles, Option.some.injEq] at h
+    subst h
+    refine ⟨hK, hS, hD, rfl, rfl, rfl, ?_, ?_⟩
+    · intro e he; cases he
+    · intro _ _; rfl
+  | cons e es ih =>
+    intro w ws hK hS hD hnd hes h
+    unfold singles at h
+    obtain ⟨v, hv, hent⟩ := hes e List.mem_cons_self
+    cases hout : (w.exchangeNoNotify e add rem rel target).out with
+    | error p => rw [hout] at h; cases h
+    | ok ox =>
+      cases ox with
+      | none => rw [hout] at h; cases h
+      | some x =>
+        rw [hout] at h
+        simp only [] at h
+        obtain ⟨k1, s1, d1, c1, r1, p1, ⟨v', hv', hxf⟩, hoth⟩ := single_views w hK hS hD e add rem rel target x v hv hent hout
+        generalize (w.exchangeNoNotify e add rem rel target).w = w1 at *
+        simp only [List.map_cons, List.nodup_cons] at hnd
+        have hnotin : ∀ e' ∈ es, e'.id ≠ e.id := by
+          intro e' he' heq; exact hnd.1 (by rw [← heq]; exact List.mem_map_of_mem he')
+        have hes1 : ∀ e' ∈ es, ∃ v, view w1 e'.id = some v ∧ v.ent = e' := by
+          intro e' he'
+          obtain ⟨v2, a, b⟩ := hes e' (List.mem_cons_of_mem _ he')
+          exact ⟨v2, by rw [hoth e'.id (hnotin e' he')]; exact a, b⟩
+        obtain ⟨k2, s2, d2, c2, r2, p2, hsel2, hoth2⟩ := ih w1 ws k1 s1 d1 hnd.2 hes1 h
+        refine ⟨k2, s2, d2, c2.trans c1, r2.trans r1, p2.trans p1, ?_, ?_⟩
+        · intro e' he'
+          rcases List.mem_cons.1 he' with rfl | he'
+          · refine ⟨v, v', hv, ?_, hxf⟩
+            rw [hoth2 e'.id (fun e2 he2 => hnotin e2 he2)]; exact hv'
+          · obtain ⟨va, vb, a, b, c⟩ := hsel2 e' he'
+            refine ⟨va, vb, by rw [← hoth e'.id (hnotin e' he')]; exact a, b, ?_⟩
+            rw [← c1, ← r1]; exact c
+        · intro id hid
+          rw [hoth2 id (fun e2 he2 => hid e2 (List.mem_cons_of_mem _ he2)), hoth id (fun h => hid e List.mem_cons_self h.symm)]
+
+/-- **batch = fold of singles.** Let a batch exchange succeed on a world satisfying the
+    invariants, the exchange being legal for every selected non-empty table. Take any list of
+    the selected entities (each once) and apply the single-entity exchange to them one after the
+    other. Then, for **every entity id**, the world after the batch call and the world after the
+    fold report the same thing: the same handle, component set, component values and relation
+    target, or both nothing. The entity pools are equal too (the same handles are alive). -/
+theorem batch_eq_singles (w : World) (hK : KInv w) (hS : SInv w) (hD : DInv.DInv w)
+    (f : Filter) (add rem : List CompId) (rel : Option CompId) (target : Entity)
+    (n : Nat) (bs : Array BatchEntry) (hne : ¬ (add = [] ∧ rem = []))
+    (hok : (w.exchangeBatchNoNotify f add rem rel target).out = .ok (n, bs))
+    (hlegal : ∀ t, Cache.Sel w (plain w f) t → (w.tableOf t).rows.size ≠ 0 → Legal (w.tableMask t) add rem)
+    (es : List Entity) (hnd : (es.map (·.id)).Nodup)
+    (hes : ∀ e ∈ es, ∃ v, view w e.id = some v ∧ v.ent = e)
+    (hsel : ∀ ts, w.getTables f = some ts → ∀ id, BatchLoop.Sel w (lensOf w ts) id ↔ ∃ e ∈ es, e.id = id)
+    (ws : World) (hs : singles add rem rel target es w = some ws) :
+    (∀ id, view (w.exchangeBatchNoNotify f add rem rel target).w id = view ws id) ∧
+    (w.exchangeBatchNoNotify f add rem rel target).w.pool = ws.pool := by
+  obtain ⟨ts, hg, hnodup, hmem, hn, hP⟩ := exchangeBatch_spec w hK hS f add rem rel target n bs hne hok hlegal
+  have hL : LensOK w add rem (lensOf w ts) := by
+    refine ⟨?_, ?_⟩
+    · unfold lensOf; rw [List.map_map]
+      have : ((fun x : Nat × Nat => x.1) ∘ fun t => (t, (w.tableOf t).rows.size)) = id := by funext t; rfl
+      rw [this, List.map_id]; exact hnodup
+    · intro p hp hnz
+      unfold lensOf at hp
+      rw [List.mem_map] at hp
+      obtain ⟨t, ht, rfl⟩ := hp
+      have hsl := (hmem t).1 ht
+      exact ⟨hsl.1, rfl, hlegal t hsl hnz⟩
+  obtain ⟨hbsel, hboth⟩ := loop_views w _ add rem rel target (lensOf w ts) bs.toList hK hD hL hP
+  obtain ⟨_, _, _, _, _, hpool, hssel, hsoth⟩ := singles_views add rem rel target es w ws hK hS hD hnd hes hs
+  refine ⟨?_, by rw [hP.pool, hpool]⟩
+  intro id
+  by_cases hsl : BatchLoop.Sel w (lensOf w ts) id
+  · obtain ⟨e, he, heid⟩ := (hsel ts hg id).1 hsl
+    obtain ⟨v, v1, a1, a2, a3⟩ := hbsel id hsl
+    obtain ⟨v0, v2, b1, b2, b3⟩ := hssel e he
+    rw [heid] at b1 b2
+    rw [a1] at b1; simp only [Option.some.injEq] at b1; subst b1
+    rw [a2, b2, Xf_functional _ _ _ _ _ _ _ _ _ a3 b3]
+  · rw [hboth id hsl, hsoth id]
+    intro e he heid
+    exact hsl ((hsel ts hg id).2 ⟨e, he, heid⟩)
+
+
+/-! ## the canonical list of selected entities -/
+
+/-- the entities in the selected tables when the call is made, table by table, row by row -/
+def selEnts (w : World) (ts : List Nat) : List Entity := ts.flatMap (fun t => (w.tableOf t).rows.toList.map (·.ent))
+
+/-- the count a batch call returns is the number of selected entities -/
+theorem selEnts_length (w : World) (ts : List Nat) : (selEnts w ts).length = (ts.map (fun t => (w.tableOf t).rows.size)).sum := by
+  unfold selEnts
+  rw [List.length_flatMap]
+  simp
+
+theorem mem_selEnts (w : World) (ts : List Nat) (e : Entity) :
+    e ∈ selEnts w ts ↔ ∃ t ∈ ts, ∃ i, i < (w.tableOf t).rows.size ∧ (rowAt w t i).ent = e := by
+  unfold selEnts
+  rw [List.mem_flatMap]
+  constructor
+  · rintro ⟨t, ht, he⟩
+    rw [List.mem_map] at he
+    obtain ⟨row, hrow, rfl⟩ := he
+    obtain ⟨i, hi, hget⟩ := List.getElem_of_mem hrow
+    simp only [Array.length_toList] at hi
+    refine ⟨t, ht, i, hi, ?_⟩
+    unfold rowAt
+    rw [Array.getD_eq_getD_getElem?, Array.getElem?_eq_getElem hi]
+    simp only [Array.getElem_toList] at hget
+    rw [← hget]; rfl
+  · rintro ⟨t, ht, i, hi, he⟩
+    refine ⟨t, ht, ?_⟩
+    rw [List.mem_map]
+    refine ⟨(w.tableOf t).rows[i], by simp, ?_⟩
+    rw [← he]; unfold rowAt
+    rw [Array.getD_eq_getD_getElem?, Array.getElem?_eq_getElem hi]; rfl
+
+/-- the canonical list satisfies the premises of `batch_eq_singles` -/
+theorem selEnts_ok (w : World) (hK : KInv w) (ts : List Nat) (hts : ∀ t ∈ ts, t < w.tables.size) (hnd : ts.Nodup) :
+    ((selEnts w ts).map (·.id)).Nodup ∧
+    (∀ e ∈ selEnts w ts, ∃ v, view w e.id = some v ∧ v.ent = e) ∧
+    (∀ id, BatchLoop.Sel w (lensOf w ts) id ↔ ∃ e ∈ selEnts w ts, e.id = id) := by
+  refine ⟨?_, ?_, ?_⟩
+  · unfold selEnts
+    rw [List.map_flatMap, List.nodup_iff_pairwise_ne, List.pairwise_flatMap]
+    refine ⟨?_, ?_⟩
+    · intro t ht
+      rw [List.pairwise_iff_getElem]
+      intro i j hi hj hij heq
+      simp only [List.length_map, Array.length_toList] at hi hj
+      simp only [List.getElem_map, Array.getElem_toList] at heq
+      have h1 := hK.idx.bwd t i ⟨hts t ht, hi⟩
+      have h2 := hK.idx.bwd t j ⟨hts t ht, hj⟩
+      have e1 : (rowAt w t i).ent = (w.tableOf t).rows[i].ent := by
+        unfold rowAt; rw [Array.getD_eq_getD_getElem?, Array.getElem?_eq_getElem hi]; rfl
+      have e2 : (rowAt w t j).ent = (w.tableOf t).rows[j].ent := by
+        unfold rowAt; rw [Array.getD_eq_getD_getElem?, Array.getElem?_eq_getElem hj]; rfl
+      rw [e1] at h1; rw [e2] at h2
+      rw [heq, h2] at h1
+      simp only [Option.some.injEq, Loc.mk.injEq, true_and] at h1
+      omega
+    · rw [List.nodup_iff_pairwise_ne] at hnd
+      apply List.Pairwise.imp_of_mem _ hnd
+      intro t1 t2 ht1 ht2 hne x hx y hy heq
+      rw [List.mem_map] at hx hy
+      obtain ⟨e1, he1, rfl⟩ := hx
+      obtain ⟨e2, he2, rfl⟩ := hy
+      have m1 : e1 ∈ selEnts w [t1] := by unfold selEnts; simpa using he1
+      have m2 : e2 ∈ selEnts w [t2] := by unfold selEnts; simpa using he2
+      obtain ⟨_, hm1, i, hi, hie⟩ := (mem_selEnts w [t1] e1).1 m1
+      obtain ⟨_, hm2, j, hj, hje⟩ := (mem_selEnts w [t2] e2).1 m2
+      simp only [List.mem_singleton] at hm1 hm2
+      subst hm1; subst hm2
+      have h1 := hK.idx.bwd _ i ⟨hts _ ht1, hi⟩
+      have h2 := hK.idx.bwd _ j ⟨hts _ ht2, hj⟩
+      rw [hie] at h1; rw [hje] at h2
+      rw [heq, h2] at h1
+      simp only [Option.some.injEq, Loc.mk.injEq] at h1
+      exact hne h1.1.symm
+  · intro e he
+    obtain ⟨t, ht, i, hi, hie⟩ := (mem_selEnts w ts e).1 he
+    have h1 := hK.idx.bwd t i ⟨hts t ht, hi⟩
+    rw [hie] at h1
+    exact ⟨_, view_of_at w e.id t (rowAt w t i) ⟨⟨t, i⟩, h1, rfl, rfl⟩, hie⟩
+  · intro id
+    constructor
+    · rintro ⟨p, hp, hnz, i, hi, hid⟩
+      unfold lensOf at hp
+      rw [List.mem_map] at hp
+      obtain ⟨t, ht, rfl⟩ := hp
+      exact ⟨(rowAt w t i).ent, (mem_selEnts w ts _).2 ⟨t, ht, i, hi, rfl⟩, hid⟩
+    · rintro ⟨e, he, heid⟩
+      obtain ⟨t, ht, i, hi, hie⟩ := (mem_selEnts w ts e).1 he
+      refine ⟨(t, (w.tableOf t).rows.size), ?_, ?_, i, hi, by rw [hie]; exact heid⟩
+      · unfold lensOf; rw [List.mem_map]; exact ⟨t, ht, rfl⟩
+      · simp only []; omega
+
+
+/-! ## non-vacuity (a test on one concrete world, labelled as such) -/
+
+/-- printable part of a view -/
+def obs (w : World) (id : Nat) : Option (Entity × Mask × List (Option Val) × Entity) :=
+  (view w id).map (fun v => (v.ent, v.mask, [v.comps 0, v.comps 1, v.comps 2], v.target))
+
+/-- three component types, the first a relation; entities in four tables (plain, with B, two
+    relation targets); `Batch.Add(All(B), C)` moves two source tables, `Batch.Remove(All(A), A)`
+    merges two relation tables of different targets into one destination. The batch call and the
+    fold of single calls over `selEnts` both succeed and report the same for every id. -/
+example :
+    let w0 := World.init ⟨4, 0, 8⟩
+    let w1 := (w0.registerComponent true false).w            -- 0 = A, a relation
+    let w2 := (w1.registerComponent false false).w           -- 1 = B
+    let w3 := (w2.registerComponent false false).w           -- 2 = C
+    let w4 := (w3.newEntity []).w                             -- e1, a target
+    let w5 := (w4.newEntity []).w                             -- e2, a target
+    let w6 := (w5.newEntityTarget 0 ⟨1, 0⟩ [(0, 0), (1, 7)] true).w   -- e3: A→e1, B=7
+    let w7 := (w6.newEntityTarget 0 ⟨2, 0⟩ [(0, 0), (1, 8)] true).w   -- e4: A→e2, B=8
+    let w8 := (w7.newEntityWith [(1, 9)]).w                   -- e5: B=9
+    let check := fun (f : Filter) (add rem : List CompId) =>
+      match (w8.exchangeBatchNoNotify f add rem none Entity.zero).out, w8.getTables f with
+      | .ok (n, _), some ts =>
+        (match singles add rem none Entity.zero (selEnts w8 ts) w8 with
+         | some ws => n == (selEnts w8 ts).length &&
+             (List.range 7).all (fun id => obs (w8.exchangeBatchNoNotify f add rem none Entity.zero).w id == obs ws id)
+         | none => false)
+      | _, _ => false
+    check (.all 2) [2] [] = true ∧ check (.all 1) [] [0] = true ∧
+    ((w8.exchangeBatchNoNotify (.all 1) [] [0] none Entity.zero).out.toOption.map (·.1)) = some 2 := by
+  decide +kernel
+
 end Arche.Props.C08
